@@ -21,8 +21,7 @@ func runC02(c HistCase, ev *Evid) (fs []Finding) {
 		h.step = i
 		f := h.apply(op)
 		if h.m.Stats.Z1 {
-			ev.Discard("Z1-float32-xff-boundary")
-			return nil
+			ev.Class("float32-xff-boundary-met")
 		}
 		if len(f) > 0 {
 			return f
